@@ -18,23 +18,51 @@ Proof. unfold reject_gex_init. rewrite ?Z.gtb_ltb, ?Z.geb_leb. lia. Qed.
 Lemma rej_gex_reply v p : reject_gex_reply v p = false <-> 1 <= v <= p - 1.
 Proof. unfold reject_gex_reply. rewrite ?Z.gtb_ltb, ?Z.geb_leb. lia. Qed.
 
+Lemma rej_gss_group1_complete v p : reject_gss_group1_complete v p = false <-> 1 <= v <= p - 1.
+Proof. unfold reject_gss_group1_complete. rewrite ?Z.gtb_ltb, ?Z.geb_leb. lia. Qed.
+Lemma rej_gss_group1_init v p : reject_gss_group1_init v p = false <-> 1 <= v <= p - 1.
+Proof. unfold reject_gss_group1_init. rewrite ?Z.gtb_ltb, ?Z.geb_leb. lia. Qed.
+Lemma rej_gss_gex_init v p : reject_gss_gex_init v p = false <-> 1 <= v <= p - 1.
+Proof. unfold reject_gss_gex_init. rewrite ?Z.gtb_ltb, ?Z.geb_leb. lia. Qed.
+Lemma rej_gss_gex_complete v p : reject_gss_gex_complete v p = false <-> 1 <= v <= p - 1.
+Proof. unfold reject_gss_gex_complete. rewrite ?Z.gtb_ltb, ?Z.geb_leb. lia. Qed.
+
 Lemma site_cases (h : list kstep) (rej : Z -> Z -> bool) :
-  In (h, rej) dh_sites ->
+  In (h, rej) dh_sites_complete ->
   (h = steps_group1_reply /\ rej = reject_group1_reply) \/
   (h = steps_group1_init /\ rej = reject_group1_init) \/
   (h = steps_gex_init /\ rej = reject_gex_init) \/
   (h = steps_gex_reply /\ rej = reject_gex_reply).
 Proof.
-  unfold dh_sites. cbn [In]. intros [H|[H|[H|[H|[]]]]]; inversion H; subst; tauto.
+  unfold dh_sites_complete. cbn [In]. intros [H|[H|[H|[H|[]]]]]; inversion H; subst; tauto.
 Qed.
+
+Lemma gss_site_cases (h : list kstep) (rej : Z -> Z -> bool) :
+  In (h, rej) dh_sites -> In (h, rej) dh_sites_complete \/
+  (h = steps_gss_group1_complete /\ rej = reject_gss_group1_complete) \/
+  (h = steps_gss_group1_init /\ rej = reject_gss_group1_init) \/
+  (h = steps_gss_gex_init /\ rej = reject_gss_gex_init) \/
+  (h = steps_gss_gex_complete /\ rej = reject_gss_gex_complete).
+Proof.
+  unfold dh_sites. rewrite in_app_iff. cbn [In].
+  intros [H|[H|[H|[H|[H|[]]]]]]; [now left | right ..]; inversion H; subst; tauto.
+Qed.
+
+Lemma complete_in_all h rej : In (h, rej) dh_sites_complete -> In (h, rej) dh_sites.
+Proof. unfold dh_sites. rewrite in_app_iff. tauto. Qed.
 
 Lemma site_rej h rej : In (h, rej) dh_sites -> forall v p, rej v p = false <-> 1 <= v <= p - 1.
 Proof.
-  intros Hin v p. destruct (site_cases h rej Hin) as [[_ ->]|[[_ ->]|[[_ ->]|[_ ->]]]].
-  - apply rej_group1_reply.
-  - apply rej_group1_init.
-  - apply rej_gex_init.
-  - apply rej_gex_reply.
+  intros Hin v p. destruct (gss_site_cases h rej Hin) as [Hc|[[_ ->]|[[_ ->]|[[_ ->]|[_ ->]]]]].
+  - destruct (site_cases h rej Hc) as [[_ ->]|[[_ ->]|[[_ ->]|[_ ->]]]].
+    + apply rej_group1_reply.
+    + apply rej_group1_init.
+    + apply rej_gex_init.
+    + apply rej_gex_reply.
+  - apply rej_gss_group1_complete.
+  - apply rej_gss_group1_init.
+  - apply rej_gss_gex_init.
+  - apply rej_gss_gex_complete.
 Qed.
 
 Lemma dh_range h rej :
@@ -117,6 +145,19 @@ Proof.
     destruct (bitlen_spec p 8192 Hp) as [_ B]. change (1024 - 1) with 1023 in A. tauto.
 Qed.
 
+Lemma gss_gex_bits p : gss_gex_group_accept p = true <-> 0 < p /\ 1024 <= bitlen p <= 8192.
+Proof.
+  unfold gss_gex_group_accept, reject_gss_gex_group. rewrite ?Z.gtb_ltb, ?Z.geb_leb.
+  generalize (bitlen p). intros bl. lia.
+Qed.
+
+Lemma gss_gex_same p : gss_gex_group_accept p = gex_group_accept p.
+Proof.
+  destruct (gss_gex_group_accept p) eqn:A, (gex_group_accept p) eqn:B; try reflexivity.
+  - apply gss_gex_bits in A. apply gex_bits in A. congruence.
+  - apply gex_bits in B. apply gss_gex_bits in B. congruence.
+Qed.
+
 Lemma gex_consts : gex_min_bits = 1024 /\ gex_max_bits = 8192.
 Proof. split; reflexivity. Qed.
 
@@ -157,32 +198,82 @@ Proof.
   pose proof all_guards_first as A. rewrite forallb_forall in A. now apply A.
 Qed.
 
-(* the observable calls of a DH handler *)
+(* the observable calls of a complete DH handler *)
 Lemma dh_sites_emit h rej :
-  In (h, rej) dh_sites -> In h all_handlers /\ emits EvSetKH h = true /\ emits EvActivate h = true.
+  In (h, rej) dh_sites_complete -> In h all_handlers /\ emits EvSetKH h = true /\ emits EvActivate h = true.
 Proof.
   intros Hin. destruct (site_cases h rej Hin) as [[-> _]|[[-> _]|[[-> _]|[-> _]]]];
     (split; [unfold all_handlers; cbn [In]; tauto | split; reflexivity]).
 Qed.
 
-(* out-of-range peer value: SSHException, nothing emitted; in-range: runs to the end *)
+Ltac unfold_steps :=
+  unfold steps_group1_reply, steps_group1_init, steps_gex_init, steps_gex_reply,
+         steps_gss_group1_complete, steps_gss_group1_init, steps_gss_gex_init, steps_gss_gex_complete.
+
+(* out-of-range peer value: SSHException, nothing emitted; in-range: the keys are set.
+   All eight sites (for the kex_gss.py sites the steps are the handler's prefix). *)
 Lemma dh_handler h rej :
   In (h, rej) dh_sites ->
   forall en,
     (~ (1 <= e_v en <= e_p en - 1) -> run_steps h en = ([], Raise SSHExc)) /\
     (1 <= e_v en <= e_p en - 1 ->
-       exists tr, run_steps h en = (tr, Ok tt) /\ In EvSetKH tr /\ In EvActivate tr).
+       exists tr, run_steps h en = (EvSetKH :: tr, Ok tt)).
 Proof.
   intros Hin en. pose proof (site_rej h rej Hin (e_v en) (e_p en)) as S.
-  destruct (site_cases h rej Hin) as [[-> ->]|[[-> ->]|[[-> ->]|[-> ->]]]];
+  assert (C : (h = steps_group1_reply /\ rej = reject_group1_reply) \/
+              (h = steps_group1_init /\ rej = reject_group1_init) \/
+              (h = steps_gex_init /\ rej = reject_gex_init) \/
+              (h = steps_gex_reply /\ rej = reject_gex_reply) \/
+              (h = steps_gss_group1_complete /\ rej = reject_gss_group1_complete) \/
+              (h = steps_gss_group1_init /\ rej = reject_gss_group1_init) \/
+              (h = steps_gss_gex_init /\ rej = reject_gss_gex_init) \/
+              (h = steps_gss_gex_complete /\ rej = reject_gss_gex_complete)).
+  { destruct (gss_site_cases h rej Hin) as [Hc|G]; [|tauto].
+    destruct (site_cases h rej Hc) as [X|[X|[X|X]]]; tauto. }
+  destruct C as [[-> ->]|[[-> ->]|[[-> ->]|[[-> ->]|[[-> ->]|[[-> ->]|[[-> ->]|[-> ->]]]]]]]];
     (split; intros H;
-     [ unfold steps_group1_reply, steps_group1_init, steps_gex_init, steps_gex_reply;
-       cbn [run_steps check_rejects];
+     [ unfold_steps; cbn [run_steps check_rejects];
        match goal with |- context [if ?b then _ else _] => destruct b eqn:E end;
        [reflexivity | exfalso; apply H; now apply S]
-     | unfold steps_group1_reply, steps_group1_init, steps_gex_init, steps_gex_reply;
-       cbn [run_steps check_rejects];
-       apply S in H; rewrite H; eexists; split; [reflexivity | cbn [In]; split; tauto] ]).
+     | unfold_steps; cbn [run_steps check_rejects];
+       apply S in H; rewrite H; eexists; reflexivity ]).
+Qed.
+
+(* the four complete handlers also activate the outbound keys when they accept *)
+Lemma dh_handler_activates h rej :
+  In (h, rej) dh_sites_complete ->
+  forall en, 1 <= e_v en <= e_p en - 1 ->
+    exists tr, run_steps h en = (tr, Ok tt) /\ In EvSetKH tr /\ In EvActivate tr.
+Proof.
+  intros Hin en H.
+  pose proof (site_rej h rej (complete_in_all h rej Hin) (e_v en) (e_p en)) as S.
+  destruct (site_cases h rej Hin) as [[-> ->]|[[-> ->]|[[-> ->]|[-> ->]]]];
+    (unfold_steps; cbn [run_steps check_rejects]; apply S in H; rewrite H; eexists;
+     split; [reflexivity | cbn [In]; split; tauto]).
+Qed.
+
+(* kex_gss.py group handler prefix: a modulus outside the range -> SSHException before the GSS
+   context is touched or anything is sent *)
+Lemma gss_gex_group_handler en :
+  (gss_gex_group_accept (e_p en) = false -> run_steps steps_gss_gex_group en = ([], Raise SSHExc)) /\
+  (gss_gex_group_accept (e_p en) = true -> e_gss_ok en = true ->
+     run_steps steps_gss_gex_group en = ([EvSend], Ok tt)).
+Proof.
+  unfold gss_gex_group_accept, steps_gss_gex_group. cbn [run_steps check_rejects lib_ok].
+  destruct (reject_gss_gex_group (e_p en) (bitlen (e_p en))); cbn [negb]; split; intros H; try discriminate.
+  - reflexivity.
+  - intros ->. reflexivity.
+Qed.
+
+(* every GSS prefix that raises has emitted nothing *)
+Lemma gss_prefixes_guards_first : forallb guards_first gss_prefixes = true.
+Proof. reflexivity. Qed.
+
+Lemma gss_reject_no_newkeys h :
+  In h gss_prefixes -> forall en tr e, run_steps h en = (tr, Raise e) -> tr = [].
+Proof.
+  intros Hin en tr e R. apply (guards_first_raise h en tr e); [|assumption].
+  pose proof gss_prefixes_guards_first as A. rewrite forallb_forall in A. now apply A.
 Qed.
 
 Lemma gex_group_handler en :
@@ -244,6 +335,27 @@ Qed.
 
 Lemma ec_rejects_degenerate c sq : ec_accept c sq [] = false /\ ec_accept c sq [0] = false.
 Proof. destruct c as [[[p a] b] flen]. split; reflexivity. Qed.
+
+(* the ECDH handlers when the library's validation agrees with the spec ec_accept *)
+Lemma ec_handler_under_spec en c sq pt :
+  e_point_ok en = ec_accept c sq pt -> e_exch_ok en = true ->
+  (ec_accept c sq pt = false ->
+     run_steps steps_ecdh_init en = ([], Raise ValueErr) /\
+     run_steps steps_ecdh_reply en = ([], Raise ValueErr)) /\
+  (forall tr, run_steps steps_ecdh_init en = (tr, Ok tt) \/ run_steps steps_ecdh_reply en = (tr, Ok tt) ->
+     ec_accept c sq pt = true /\ pt <> [] /\ pt <> [0]) /\
+  (ec_accept c sq pt = true ->
+     run_steps steps_ecdh_init en = ([EvSetKH; EvSend; EvActivate], Ok tt) /\
+     run_steps steps_ecdh_reply en = ([EvSetKH; EvVerifyKey; EvActivate], Ok tt)).
+Proof.
+  intros Hp He. unfold steps_ecdh_init, steps_ecdh_reply. cbn [run_steps lib_ok]. rewrite Hp, He.
+  destruct (ec_rejects_degenerate c sq) as [D1 D2].
+  destruct (ec_accept c sq pt) eqn:A.
+  - split; [discriminate|]. split; [|intros _; split; reflexivity].
+    intros tr _. split; [reflexivity|]. split; intros ->; congruence.
+  - split; [intros _; split; reflexivity|]. split; [|discriminate].
+    intros tr [R|R]; discriminate.
+Qed.
 
 (* non-vacuity helpers *)
 Lemma prime_23 : prime 23.
